@@ -38,7 +38,7 @@ PROBES = ["tool_isolated", "layout_contiguous", "layout_chunked", "layout_gzip",
           "basin_internal", "basin_file", "basin_mapped", "basin_multi_defs", "basin_via_writer", "defective_feature_dropped",
           "unknown_feature_dropped", "strip_logs", "strip_basins", "chain_compress_compress", "chain_repack_compress",
           "chain_other", "idempotence_checked", "compress_log_renamed", "condense_basin_feature", "condense_ancillary_feature",
-          "condense_internal_basin_feature", "internal_basin_shadows_computable", "tdms_converted", "empty_feature_dataset", "empty_feature_sorts_first", "empty_events_group",
+          "condense_internal_basin_feature", "internal_basin_shadows_computable", "tdms_converted", "realistic_size_input", "foreign_suffix_output", "empty_feature_dataset", "empty_feature_sorts_first", "empty_events_group",
           "basin_feature_compared", "model_input", "layout_input"]
 COMPONENTS = {
     "real": ["dclab.cli compress/repack/condense/tdms2rtdc", "dclab.rtdc_dataset.copier (rtdc_copy, h5ds_copy, basin_definition_copy)",
@@ -310,6 +310,11 @@ class World:
     def gen_op(self, r):
         nf = len(self.files)
         if nf == 0 or (nf < 3 and r.random() < 0.4) or (nf < 12 and r.random() < 0.12):
+            if r.random() < 0.1:
+                # a file of realistic size: 80x250 images, event count at and around multiples of the writer's default chunk
+                # length (52 images per 1 MiB chunk)
+                return {"k": "model", "dseed": r.randrange(1 << 30), "n": r.choice([52, 104, 104, 156, 103, 105]), "real": True,
+                        "cmp": r.choice(["zstd", "zstd1", "gzip", "none"]), "basin": "none"}
             if r.random() < 0.4:
                 return {"k": "model", "dseed": r.randrange(1 << 30), "n": r.choice([3, 5, 9, 14, 23, 40]),
                         "cmp": r.choice(["zstd", "zstd1", "gzip", "none"]),
@@ -328,7 +333,8 @@ class World:
             return {"k": "tool", "src": r.choice(shadow), "tool": "condense", "again": False,
                     "opts": {"store_ancillary_features": r.random() < 0.8, "store_basin_features": r.random() < 0.3}}
         tool = r.choice(["compress", "compress", "repack", "repack", "condense"])
-        op = {"k": "tool", "src": r.randrange(1 << 16), "tool": tool, "opts": {}, "again": False}
+        op = {"k": "tool", "src": r.randrange(1 << 16), "tool": tool, "opts": {}, "again": False,
+              "outname": r.choice(["plain", "plain", "plain", "no_suffix", "foreign_suffix"])}
         if tool == "repack":
             op["opts"] = {"strip_logs": r.random() < 0.3, "strip_basins": r.random() < 0.3}
         elif tool == "condense":
@@ -350,11 +356,16 @@ class World:
         name = self.newname("m")
         fl = pr.random() < 0.35
         pool = gen.FLOAT_SCALARS + ["time", "frame", "index_online", "nevents", "ml_class"]
-        m = gen.gen_model(ds_, n, scalars=pr.sample(pool, pr.randint(1, 7)), image=pr.random() < 0.55,
-                          mask=pr.random() < 0.5, contour=pr.random() < 0.25, trace=fl and pr.random() < 0.6, fl=fl,
-                          n_logs=pr.randint(0, 3), n_tables=pr.randint(0, 2),
-                          nan_mode=pr.choice(["none", "none", "some", "all", "first"]), special=pr.random() < 0.2,
-                          long_logs=pr.random() < 0.3)
+        if op.get("real"):
+            m = gen.gen_model(ds_, n, shape=(80, 250), scalars=pr.sample(pool, pr.randint(1, 3)), image=True, mask=False,
+                              n_logs=pr.randint(0, 2), n_tables=0)
+            ctx.probe("realistic_size_input")
+        else:
+            m = gen.gen_model(ds_, n, scalars=pr.sample(pool, pr.randint(1, 7)), image=pr.random() < 0.55,
+                              mask=pr.random() < 0.5, contour=pr.random() < 0.25, trace=fl and pr.random() < 0.6, fl=fl,
+                              n_logs=pr.randint(0, 3), n_tables=pr.randint(0, 2),
+                              nan_mode=pr.choice(["none", "none", "some", "all", "first"]), special=pr.random() < 0.2,
+                              long_logs=pr.random() < 0.3)
         with quiet():
             gen.write_model(m, self.dir / name, compression=op["cmp"])
             basin = op.get("basin", "none")
@@ -737,6 +748,14 @@ class World:
         tool, opts = op["tool"], dict(op.get("opts") or {})
         facts = self.facts(src["name"])
         out = self.newname(tool[:4])
+        out_arg = out
+        if op.get("outname") == "foreign_suffix":
+            # the user names the output like the input with another suffix: dclab appends '.rtdc'
+            out_arg = src["name"][:-5] + "." + out[:-5]
+            out = out_arg + ".rtdc"
+            ctx.probe("foreign_suffix_output")
+        elif op.get("outname") == "no_suffix":
+            out_arg = out[:-5]
         what = "other"
         if facts["n_basins"] >= 2 and not opts.get("strip_basins"):
             what = "multi_basin_defs"
@@ -747,7 +766,7 @@ class World:
         crash_what = "vlen_strings_zstd5" if facts["vlen_hi"] else None
         label = f"{tool} {json.dumps(opts, sort_keys=True)} {src['name']}"
         before = self.snapshot()
-        res = self.run_tool(lambda: getattr(cli, tool)(path_in=self.dir / src["name"], path_out=self.dir / out, **opts),
+        res = self.run_tool(lambda: getattr(cli, tool)(path_in=self.dir / src["name"], path_out=self.dir / out_arg, **opts),
                             "C08.tool.raises", {"what": what}, label, crash_what=crash_what)
         ctx.state_ops += 1
         ctx.state(tool, json.dumps(opts, sort_keys=True), src["kind"], src["basin"], src["vclass"])
